@@ -11,7 +11,7 @@ const (
 	kUpdVerify   = "revocation.(*Update).Verify"
 	kSaccVerify  = "revocation.(*SignedAccumulator).UnmarshalVerify"
 	kELVerify    = "revocation.(*EventList).Verify"
-	kHashEquals  = "revocation.(*Event).hashEquals"
+	kHashEquals  = "revocation.hashEquals"
 	kHashEqual   = "revocation.(Hash).Equal"
 	kHashAlg     = "revocation.(Hash).Algorithm"
 	kSignedUV    = "signed.UnmarshalVerify"
@@ -19,7 +19,7 @@ const (
 	saccD        = "<revocation.SignedAccumulator>"
 	elD          = "<revocation.EventList>"
 	kPrepend     = "revocation.(*Update).Prepend"
-	kHashUsing   = "revocation.(*Event).hashUsingAlg"
+	kHashUsing   = "revocation.hashUsingAlg"
 	kELUncomp    = "revocation.(*EventList).uncompress"
 )
 
@@ -33,11 +33,11 @@ func init() {
 				}
 				mp(P, R, "C10.a", kUpdVerify+":signature", "nil error => update.SignedAccumulator.UnmarshalVerify(pk) returned nil", fn, AcceptNilErr(1), &MustPass{Match: func(a Atom) bool {
 					c, idx := callAndResult(a.V)
-					return c != nil && calleeName(c) == kSaccVerify && idx == 1 && a.Want == Nil && desc(c.Call.Args[0]) == "<revocation.Update>.SignedAccumulator" && desc(c.Call.Args[1]) == pkD
+					return c != nil && calleeIs(c, kSaccVerify) && idx == 1 && a.Want == Nil && desc(c.Call.Args[0]) == "<revocation.Update>.SignedAccumulator" && desc(c.Call.Args[1]) == pkD
 				}})
 				mp(P, R, "C10.a", kUpdVerify+":chain", "nil error => EventList.Verify(acc) returned nil for NewEventList(update.Events...) and the verified accumulator", fn, AcceptNilErr(1), &MustPass{Match: func(a Atom) bool {
 					c, _ := callAndResult(a.V)
-					if c == nil || calleeName(c) != kELVerify || a.Want != Nil {
+					if c == nil || !calleeIs(c, kELVerify) || a.Want != Nil {
 						return false
 					}
 					return desc(c.Call.Args[0]) == "call:revocation.NewEventList(<revocation.Update>.Events)" &&
@@ -102,7 +102,7 @@ func init() {
 				for _, st := range sts {
 					q := &MustPass{P: P, Match: func(a Atom) bool {
 						c, _ := callAndResult(a.V)
-						if c == nil || calleeName(c) != kELVerify || a.Want != Nil {
+						if c == nil || !calleeIs(c, kELVerify) || a.Want != Nil {
 							return false
 						}
 						return strings.HasPrefix(desc(c.Call.Args[0]), "call:revocation.NewEventList(") && strings.HasSuffix(desc(c.Call.Args[1]), ".SignedAccumulator.Accumulator")
@@ -135,7 +135,7 @@ func signedAccumulatorRule(P *Program, R *Report) {
 		var dst ssa.Value
 		sig := func(a Atom) bool {
 			c, _ := callAndResult(a.V)
-			if c == nil || calleeName(c) != kSignedUV || a.Want != Nil {
+			if c == nil || !calleeIs(c, kSignedUV) || a.Want != Nil {
 				return false
 			}
 			if desc(c.Call.Args[0]) != pkD+".ECDSA" || desc(c.Call.Args[1]) != saccD+".Data" {
@@ -198,7 +198,7 @@ func signedAccumulatorRule(P *Program, R *Report) {
 		}
 		ver := func(a Atom) bool {
 			c, _ := callAndResult(a.V)
-			return c != nil && calleeName(c) == kSignedVer && a.Want == Nil && (desc(c.Call.Args[0]) == "arg#0" || desc(c.Call.Args[0]) == "<crypto/ecdsa.PublicKey>")
+			return c != nil && calleeIs(c, kSignedVer) && a.Want == Nil && (desc(c.Call.Args[0]) == "arg#0" || desc(c.Call.Args[0]) == "<crypto/ecdsa.PublicKey>")
 		}
 		if decodeDst == nil {
 			R.bad(rule, kSignedUV+":decode", "the payload is decoded into the destination", "no cbor.Unmarshal into dst found", P.Pos(g.Pos()))
@@ -231,7 +231,7 @@ func signedAccumulatorRule(P *Program, R *Report) {
 		}})
 		mp(P, R, rule, kSignedVer+":parsed", "nil error => the signature parsed", v, AcceptNilErr(0), &MustPass{Match: func(a Atom) bool {
 			c, idx := callAndResult(a.V)
-			return c != nil && calleeName(c) == "encoding/asn1.Unmarshal" && idx == 1 && a.Want == Nil
+			return c != nil && calleeIs(c, "encoding/asn1.Unmarshal") && idx == 1 && a.Want == Nil
 		}})
 	}
 }
@@ -248,7 +248,7 @@ func eventListVerifyRule(P *Program, R *Report) {
 		return ok && g.Kind == "int" && g.Subject == "len("+ev+")" && g.Rel == "==" && g.BoundA.String() == "0"
 	}
 	mp(P, R, rule, kELVerify+":tail-hash", "nil for a non-empty list => events[count-1].hashEquals(acc.EventHash) returned nil", fn, AcceptNilErr(0), &MustPass{Exempt: empty, Match: func(a Atom) bool {
-		c, ok := callAtom(a, Nil, kHashEquals)
+		c, ok := hashEqualsCall(P, a)
 		if !ok {
 			return false
 		}
@@ -261,7 +261,7 @@ func eventListVerifyRule(P *Program, R *Report) {
 		m          func(a Atom) bool
 	}{
 		{"parent-hash", "for every i > 0: events[i-1].hashEquals(events[i].ParentHash) returned nil", func(a Atom) bool {
-			c, ok := callAtom(a, Nil, kHashEquals)
+			c, ok := hashEqualsCall(P, a)
 			if ok && desc(c.Call.Args[0]) == ev+"[(#i-1)]" && desc(c.Call.Args[1]) == ev+"[#i].ParentHash" {
 				return true
 			}
@@ -297,22 +297,11 @@ func hashEqualityRule(P *Program, R *Report) {
 		mp(P, R, rule, kHashEqual+":full-equality", "true => the two hashes have equal length and equal bytes (bytes.Equal / constant-time compare, or a loop guarded by a length-equality test)", fn, AcceptTrue(0),
 			&MustPass{Match: anyOf(eqMatcher(is("arg#0"), is("arg#1")), lenEq)})
 	}
-	if fn := mustFunc(P, R, rule, kHashEquals); fn != nil {
-		mp(P, R, rule, kHashEquals+":equal", "nil => Equal(freshly computed hash of this event, given hash) was true", fn, AcceptNilErr(0), &MustPass{Match: func(a Atom) bool {
-			c, ok := callAtom(a, True, kHashEqual)
-			if !ok {
-				return false
-			}
-			x, y := desc(c.Call.Args[0]), desc(c.Call.Args[1])
-			fresh := func(d string) bool {
-				if !strings.HasSuffix(d, "#0") {
-					return false
-				}
-				return strings.HasPrefix(d, "call:"+kHashUsing+"(<revocation.Event>,") ||
-					strings.HasPrefix(d, "call:github.com/multiformats/go-multihash.Sum(call:revocation.(*Event).hashBytes(<revocation.Event>),")
-			}
-			return (fresh(x) && y == "arg#1") || (fresh(y) && x == "arg#1")
-		}})
+	if fn := hashEqualsFn(P); fn != nil {
+		R.seen(FuncKey(fn))
+		mp(P, R, rule, kHashEquals+":equal", "nil => Equal(freshly computed hash of this event, given hash) was true", fn, AcceptNilErr(0), &MustPass{Match: hashEqualsMatch})
+	} else {
+		R.bad(rule, kHashEquals+":equal", "a helper exists that returns nil only if Equal(freshly computed hash of the event, given hash) held", "no such function in package revocation", "")
 	}
 	if fn := mustFunc(P, R, rule, "revocation.checkHashAlg"); fn != nil {
 		// nil only for SHA2_256
@@ -347,7 +336,7 @@ func verifiedMemoRule(P *Program, R *Report) {
 			}
 			// after the loop: every path to the store passed the tail-hash test
 			q := &MustPass{P: P, Match: func(a Atom) bool {
-				_, ok := callAtom(a, Nil, kHashEquals)
+				_, ok := hashEqualsCall(P, a)
 				return ok
 			}}
 			r := q.MustReach(fn, st)
@@ -372,10 +361,81 @@ func verifiedMemoRule(P *Program, R *Report) {
 		}
 		for _, s := range sinksOf(fn) {
 			own := strings.HasSuffix(s.target, ".Events[#i].ParentHash") || (freshFiled && s.target == "new:revocation.Event.ParentHash")
-			if own && strings.Contains(desc(s.val), "call:revocation.(*Event).hash(") && strings.Contains(desc(s.val), ".Events[(#i-1)]") {
+			if own && strings.Contains(desc(s.val), "call:revocation.hash(") && strings.Contains(desc(s.val), ".Events[(#i-1)]") {
 				okParent = true
 			}
 		}
 		R.decide(rule, kELUncomp+":parent", "uncompress derives the parent hash of every later event from its predecessor", okParent, "", P.Pos(fn.Pos()))
 	}
+}
+
+// hashEqualsFn: the helper that compares a freshly computed hash of an event with a given hash - by name
+// (revocation.hashEquals) or, if it was renamed or reshaped, the one unexported function of the package that takes an
+// event and a hash, returns an error, and returns nil only after Equal(fresh hash of the event, the given hash).
+var hashEqualsCache = map[*Program]*ssa.Function{}
+
+func hashEqualsFn(P *Program) *ssa.Function {
+	if f, ok := hashEqualsCache[P]; ok {
+		return f
+	}
+	var found *ssa.Function
+	if f := P.Func(kHashEquals); f != nil && hashEqualsHolds(P, f) {
+		found = f
+	} else {
+		for _, f := range P.AllFuncs {
+			if f.Pkg == nil || f.Pkg.Pkg.Name() != "revocation" || f.Blocks == nil || f.Parent() != nil || f.Object() == nil || f.Object().Exported() {
+				continue
+			}
+			if len(f.Params) != 2 || f.Signature.Results().Len() != 1 || !isErrorType(f.Signature.Results().At(0).Type()) {
+				continue
+			}
+			if hashEqualsHolds(P, f) {
+				if found != nil {
+					found = nil
+					break
+				}
+				found = f
+			}
+		}
+	}
+	hashEqualsCache[P] = found
+	return found
+}
+
+func hashEqualsMatch(a Atom) bool {
+	c, ok := callAtom(a, True, kHashEqual)
+	if !ok {
+		return false
+	}
+	// (a hash obtained from a helper is named by what the helper returns: multihash.Sum of the event's bytes)
+	x, y := descNN(c.Call.Args[0]), descNN(c.Call.Args[1])
+	fresh := func(d string) bool {
+		if !strings.HasSuffix(d, "#0") {
+			return false
+		}
+		return strings.HasPrefix(d, "call:"+kHashUsing+"(<revocation.Event>,") ||
+			strings.HasPrefix(d, "call:github.com/multiformats/go-multihash.Sum(call:revocation.hashBytes(<revocation.Event>),")
+	}
+	return (fresh(x) && y == "arg#1") || (fresh(y) && x == "arg#1")
+}
+
+func hashEqualsHolds(P *Program, f *ssa.Function) bool {
+	q := &MustPass{P: P, Match: hashEqualsMatch}
+	r := q.Check(f, AcceptNilErr(0))
+	return r.Holds && r.NAcc > 0
+}
+
+// hashEqualsCall: the atom is "the hash-comparison helper returned nil".
+func hashEqualsCall(P *Program, a Atom) (*ssa.Call, bool) {
+	if a.Want != Nil {
+		return nil, false
+	}
+	c, _ := callAndResult(a.V)
+	if c == nil {
+		return nil, false
+	}
+	if he := hashEqualsFn(P); he != nil && staticCallee(c) == he {
+		return c, true
+	}
+	return nil, false
 }
